@@ -15,10 +15,23 @@
 //! …
 //! end
 //! ```
-//! stdout: one JSON line per distinct outcome and one summary line per scenario.
+//! Exploration (per scenario): depth-first search over all schedules with at most `preempt` preemptions, at most `cap`
+//! schedules (stateless: the scenario is re-executed from scratch for every schedule, replaying the recorded choice
+//! prefix); if that search completes and the bound cut something, the bound is raised while the schedule count stays
+//! under `full_cap/4` (a search that cuts nothing is `exhaustive`); then `random` seeded random schedules and `pct`
+//! PCT schedules (`pct_depth` = 3: random thread priorities, 2 priority change points).  `replay=` runs one schedule.
+//!
+//! A schedule is the list of thread ids chosen at the decision points: one at the start, one at every yield point of
+//! the running thread (first read of a variable from shared memory, start of commit, non-transactional read, blocking
+//! retry), one whenever a thread finishes.  Switching away from a thread that could continue is a preemption.
+//!
+//! stdout: one JSON line per distinct outcome (`status` ok|hang|deadlock|panic|replay-mismatch|hang-no-yield, commit
+//! order as [thread, transaction index] pairs, per-thread result lines as hcimpl prints them for `endtx`, `snap` and
+//! `wf` of the final map, number of schedules with this outcome, one witness schedule) and one summary line per
+//! scenario (schedules per mode, failed validations = `retries`, blocking retries, non-transactional reads, …).
 #![allow(dead_code)]
 
-// every module of hcimpl (generated list, see build.rs); `Sess` mirrors hcimpl's crate root
+// the modules of hcimpl that the interpreter needs (generated list, see build.rs); `Sess` mirrors hcimpl's crate root
 include!(concat!(env!("OUT_DIR"), "/hcimpl_mods.rs"));
 mod sched;
 
@@ -236,7 +249,7 @@ impl Pool {
     }
 
     /// one scheduled execution of `ntx.len()` threads; `Err(())` = a worker never reached a yield point again
-    fn run(&mut self, ntx: &[usize], body: Body, strategy: Strategy, max_steps: u64, trace: bool) -> Result<(Run, Vec<Vec<String>>, String), ()> {
+    fn run(&mut self, ntx: &[usize], body: Body, strategy: Strategy, max_steps: u64, trace: bool) -> Result<(Run, Vec<Vec<String>>, String), Vec<u8>> {
         let nt = ntx.len();
         self.ensure(nt);
         let sh = Shared::new(Run::new(nt, max_steps, strategy, trace));
@@ -247,7 +260,9 @@ impl Pool {
         }
         drop(body);
         sh.release();
-        sh.wait_all(nt, 20)?;
+        if sh.wait_all(nt, 20).is_err() {
+            return Err(sh.schedule_so_far());
+        }
         let mut results: Vec<Vec<String>> = vec![vec![]; nt];
         let mut worker_panic = false;
         for (tid, res) in results.iter_mut().enumerate() {
@@ -324,14 +339,19 @@ fn run_once(pool: &mut Pool, sc: &Scenario, strategy: Strategy, max_steps: u64, 
         let threads = sc.threads.clone();
         Arc::new(move |tid, k| sess.run_tx(&threads[tid][k]))
     };
-    let Ok((run, results, status)) = pool.run(&ntx, body, strategy, max_steps, trace) else {
-        // a worker spins between two yield points: it cannot be stopped, report and leave
-        println!(
-            "{{\"scenario\":{},\"type\":\"outcome\",\"status\":\"hang-no-yield\",\"commit_order\":[],\"results\":[],\"snap\":\"\",\"wf\":\"\",\"count\":1,\"mode\":\"?\",\"preemptions\":0,\"witness\":[]}}",
-            js(&sc.name)
-        );
-        std::io::stdout().flush().unwrap();
-        std::process::exit(3);
+    let (run, results, status) = match pool.run(&ntx, body, strategy, max_steps, trace) {
+        Ok(x) => x,
+        Err(sched) => {
+            // a worker spins between two yield points: it cannot be stopped, report and leave
+            let wit: Vec<String> = sched.iter().map(|t| t.to_string()).collect();
+            println!(
+                "{{\"scenario\":{},\"type\":\"outcome\",\"status\":\"hang-no-yield\",\"commit_order\":[],\"results\":[],\"snap\":\"\",\"wf\":\"\",\"count\":1,\"mode\":\"?\",\"preemptions\":0,\"witness\":[{}]}}",
+                js(&sc.name),
+                wit.join(",")
+            );
+            std::io::stdout().flush().unwrap();
+            std::process::exit(3);
+        }
     };
     let (snap, wf) = if status == "ok" {
         while Arc::strong_count(&sess) > 1 {
@@ -602,7 +622,7 @@ mod tests {
         let mut dfs = Dfs::new(bound);
         let mut out = BTreeMap::new();
         loop {
-            let (mut run, results, status) = pool.run(ntx, mk(), Strategy::Dfs(dfs), max_steps, false).unwrap();
+            let (mut run, results, status) = pool.run(ntx, mk(), Strategy::Dfs(dfs), max_steps, false).ok().unwrap();
             dfs = match std::mem::replace(&mut run.strategy, Strategy::Replay { sched: vec![], pos: 0 }) {
                 Strategy::Dfs(d) => d,
                 _ => unreachable!(),
